@@ -26,3 +26,52 @@ package gojq
 //@ func funcOpMul$1(l, r int) (x any)
 //@   property C10
 //@   ensures exact(x) && numval(x) == l * r
+
+// ---------------------------------------------------------------------------------------
+// C01 / C20: the persistent stacks (stack.go, scope_stack.go)
+// ---------------------------------------------------------------------------------------
+
+//@ invariant-of (s *stack) -1 <= s.index && s.index < len(s.data) && -1 <= s.limit && s.limit < len(s.data)
+//@ invariant-of (s *stack) forall k :: {s.data[k]} 0 <= k && k < len(s.data) ==> -1 <= s.data[k].next && s.data[k].next < k
+
+//@ func newStack() (s *stack)
+//@   property C01
+//@   ensures s != nil && fresh(s) && s.index == -1 && s.limit == -1 && len(s.data) == 0
+
+//@ func (s *stack) push(v any)
+//@   property C01 C20
+//@   modifies s.index, s.data, elems(s.data)
+//@   ensures s.limit == old(s.limit)
+//@   ensures s.index == max(old(s.index), old(s.limit)) + 1
+//@   ensures s.data[s.index].value == v && s.data[s.index].next == old(s.index)
+//@   ensures len(s.data) >= old(len(s.data))
+//@   ensures forall k :: {s.data[k]} 0 <= k && k < old(len(s.data)) && k != s.index ==> s.data[k] == old(s.data[k])
+//@   property C20
+//@   ensures len(s.data) <= max(old(len(s.data)), max(old(s.index), old(s.limit)) + 2)
+
+//@ func (s *stack) pop() (v any)
+//@   property C01
+//@   requires s.index >= 0
+//@   modifies s.index
+//@   ensures v == old(s.data[s.index].value) && s.index == old(s.data[s.index].next)
+
+//@ func (s *stack) top() (v any)
+//@   property C01
+//@   requires s.index >= 0
+//@   ensures v == s.data[s.index].value
+
+//@ func (s *stack) empty() (b bool)
+//@   property C01
+//@   ensures b == (s.index < 0)
+
+//@ func (s *stack) save() (index, limit int)
+//@   property C01
+//@   modifies s.limit
+//@   ensures index == old(s.index) && limit == old(s.limit)
+//@   ensures s.limit == max(old(s.index), old(s.limit))
+
+//@ func (s *stack) restore(index, limit int)
+//@   property C01
+//@   requires -1 <= index && index < len(s.data) && -1 <= limit && limit < len(s.data)
+//@   modifies s.index, s.limit
+//@   ensures s.index == index && s.limit == limit
